@@ -152,7 +152,7 @@ func CheckC02(c *Ctx) {
 			continue
 		}
 		api, vi := api, vi
-		c.Parallel("random-"+api.Ver.Name, c.Pick(3_000_000, 60_000_000), 4096, func(w *Worker, i int) {
+		c.Parallel("random-"+api.Ver.Name, c.Pick(3_000_000, 150_000_000), 4096, func(w *Worker, i int) {
 			a := gen.MixedAssign(w.R, api.Ver)
 			objCase(w, api, a, w.R.Intn(NStyles))
 			if c.Quick || i&7 == 0 {
@@ -597,7 +597,7 @@ func CheckC07(c *Ctx) {
 	for _, api := range probe.APIs {
 		api := api
 		habv := hostileAbvs(api.Ver)
-		c.Parallel("histories-"+api.Ver.Name, c.Pick(200_000, 5_000_000), 256, func(w *Worker, i int) {
+		c.Parallel("histories-"+api.Ver.Name, c.Pick(200_000, 15_000_000), 256, func(w *Worker, i int) {
 			n := 1 + w.R.Intn(200)
 			if w.R.Chance(3, 4) {
 				n = 1 + w.R.Intn(40)
@@ -710,7 +710,7 @@ func CheckC09(c *Ctx) {
 		c.Parallel("zero-"+v.Name, 1, 1, func(w *Worker, i int) {
 			wellFormed(c, w, api, api.New(), func() []Step { return []Step{{Op: "new"}} })
 		})
-		c.Parallel("sweeps-"+v.Name, c.Pick(150_000, 4_000_000), 256, func(w *Worker, i int) {
+		c.Parallel("sweeps-"+v.Name, c.Pick(150_000, 12_000_000), 256, func(w *Worker, i int) {
 			n := 1 + w.R.Intn(60)
 			history(c, w, api, n, habv, hval, true)
 		})
@@ -873,7 +873,7 @@ func CheckC16(c *Ctx) {
 		}
 	})
 	// random assignments in random history styles
-	c.Parallel("random", c.Pick(4_000_000, 100_000_000), 4096, func(w *Worker, i int) {
+	c.Parallel("random", c.Pick(4_000_000, 400_000_000), 4096, func(w *Worker, i int) {
 		a := gen.MixedAssign(w.R, v)
 		check(w, a, w.R.Intn(NStyles), "random")
 		if c.Quick || i&15 == 0 {
